@@ -52,3 +52,37 @@ CONTRACTS = [
              loops={0: Loop('mcp_inv', vars={'config': MCfgU}, attrs={'self.chains': Map(Str, MChainU)}, step={'one_shared_registry': 'mcp_step'})},
              ensures={'chains_by_name': 'mcp_post'}, may_raise=['AssertionError'], l0=['A-dict'], searchable=False),
 ]
+
+
+# ------------------------------------------------------------------------------------------------
+# MultiChain.__init__ / __getitem__ (C13: "a MultiChain is its chains")
+# ------------------------------------------------------------------------------------------------
+def mci_post(self, configs, parameter_mode, trace):
+    """the shared registry starts EMPTY (tasks are shared among this MultiChain's chains only - nothing leaks in from an earlier
+    MultiChain or a default argument), configs and mode are kept as given, and the chains are prepared exactly once"""
+    return all_of(len(self._tasks) == 0, len(self.chains) == 0, self._base_configs == configs, self.parameter_mode == parameter_mode,
+                  trace.count('_prepare') == 1, trace.arg('_prepare', 0) == self)
+
+
+def mcg_post(self, chain_name, result):
+    """mc[name] is the member chain built for the config of that name"""
+    return all_of(chain_name in self.chains, result == self.chains[chain_name])
+
+
+def mcg_raise(self, chain_name, raised):
+    return all_of(raised == 'ValueError', chain_name not in self.chains)
+
+
+def mcg_frame(self, old_self):
+    return same_map(self.chains, old_self.chains)
+
+
+CONTRACTS += [
+    Contract(id='CH.multi_init', target='taskchain.chain:MultiChain.__init__', props={'C13': 'decisive'},
+             inputs={'self': Obj('taskchain.chain:MultiChain'), 'configs': S(Seq(MCfgU), 'configs'), 'parameter_mode': S(Bool, 'parameter_mode')},
+             callees={'taskchain.chain:MultiChain._prepare': ByContract(event='_prepare', pure=False)},
+             ensures={'fresh_registry': 'mci_post'}, searchable=False),
+    Contract(id='CH.multi_getitem', target='taskchain.chain:MultiChain.__getitem__', props={'C13': 'decisive'},
+             inputs={'self': Obj('taskchain.chain:MultiChain', chains=SymDict(Str, MChainU, 'chains')), 'chain_name': S(Str, 'chain_name')},
+             ensures={'member': 'mcg_post', 'frame': 'mcg_frame'}, ensures_raise={'unknown_name': 'mcg_raise', 'frame': 'mcg_frame'}, l0=['A-dict'], searchable=False),
+]
